@@ -26,9 +26,10 @@ Two sub-classes FAIL ON THE UNCHANGED LIBRARY and are therefore switched off (re
                             a closer without opener INSIDE a pair (a=(x]) ), crossing pairs (a={[}] ).  HTML gives the
                             brackets of a value no meaning, but is_html.consume_attribute_with_unquoted_value() gives up
                             at an opener that does not match the pending closer: '<div a=(x>p' gives 'x>p'.
-  UNQ_SLASH_BEFORE_NAME_END a value in which a `/` is followed by name characters only up to its end (href=/about,
-                            src=img/logo, href=http://x.y/z): is_html() reads `/name` as the end of a closing tag
-                            and reports 'not a tag': '<a href=/about>p' gives '/about>p'.
+  UNQ_SLASH_BEFORE_NAME_END a value in which a `/` is followed by name characters only (letters and digits of any
+                            script, - :) up to its end (href=/about, src=img/logo, href=http://x.y/z, p=a/٣):
+                            is_html() reads `/name` as the end of a closing tag and reports 'not a tag':
+                            '<a href=/about>p' gives '/about>p'.
 Their texts still go through the is_html correspondence stream (model and implementation must agree on them).
 """
 import itertools
@@ -51,7 +52,8 @@ UNQ_NON_ASCII = ['é', '٣', '日', ' ', '　', '\U0001F600']
 UNQ_PLAIN = [c for c in UNQ_ASCII if c not in '()[]{}'] + UNQ_NON_ASCII          # everything but brackets
 
 # '@' marks the swept character
-VALUE_PLACES = [('alone', '@'), ('first', '@x'), ('middle', 'x@y'), ('last', 'x@'), ('doubled', '@@'), ('before-punctuation', 'x@.y')]
+VALUE_PLACES = [('alone', '@'), ('first', '@x'), ('middle', 'x@y'), ('last', 'x@'), ('doubled', '@@'), ('before-punctuation', 'x@.y'),
+                ('after-slash', 'x/@')]
 
 # 'V' marks the value; (kind, shape)
 VALUE_TAG_SHAPES = [
@@ -70,14 +72,15 @@ REALISTIC_VALUES = ['{[1,2]}', '{items[0]}', '{fn(a,b)}', '{{x:1}}', '[{a:1},{b:
                     'x)', 'a]', '}', ')(x)', '{a}]', 'f(x)}', ']]', 'text/css;q', 'a/b.c', '1.5em', 'rgb(0,0,0)', 'calc(1+(2*3))']
 NOT_NESTED_VALUES = ['(x', '[1', '{', 'x(', 'f(a', 'a[0', '{[1,2]', '(x])', '{a]}', '{[}]', '([)]', '[(])', '}{', ')(', '{(})',
                      '(()', '[[]', '{{x}', 'f(x)(', '(a)[', '{[(x])}']
-SLASH_VALUES = ['/', '/x', '/about', 'x/y', 'img/logo', 'http://x.y/z', 'a/b/c', '/a/', 'x/', '//', 'x//y', '/-', '/:', 'f(x)/y',
+SLASH_VALUES = ['/٣', 'a/é', '/', '/x', '/about', 'x/y', 'img/logo', 'http://x.y/z', 'a/b/c', '/a/', 'x/', '//', 'x//y', '/-', '/:', 'f(x)/y',
                 '{a}/b', '(/x)']
 
 
 def slash_before_name_end(value):
-    """a `/` followed by name characters only (letters, digits, - :) up to the end of the value"""
+    """a `/` followed by name characters only (letters and digits of ANY script, - :) up to the end of the value;
+    a value that ends in `/` is one of them"""
     i = value.rfind('/')
-    return i >= 0 and all(c in NAME_CHARS for c in value[i + 1:])
+    return i >= 0 and all(c in '-:' or c.isalnum() for c in value[i + 1:])
 
 
 def properly_nested(value):
